@@ -97,10 +97,13 @@ class CirclePixelRegion(PixelRegion):
         """
         Bounding box (`~regions.RegionBoundingBox`).
         """
-        xmin = self.center.x - self.radius
-        xmax = self.center.x + self.radius
-        ymin = self.center.y - self.radius
-        ymax = self.center.y + self.radius
+        # compute in floating point: a radius given as a fixed-width
+        # (e.g., unsigned) numpy integer would wrap around or overflow
+        radius = float(self.radius)
+        xmin = self.center.x - radius
+        xmax = self.center.x + radius
+        ymin = self.center.y - radius
+        ymax = self.center.y + radius
 
         return RegionBoundingBox.from_float(xmin, xmax, ymin, ymax)
 
